@@ -21,6 +21,7 @@
   * open_connection_reply_truthy_iff_failed, empty_reply_is_taken_as_success, failed_connect_ends_flow_with_error:
     the `None` / `""` / message boundary of OpenConnectionCompleted.reply
   * exactly_one_end_or_error_of_schedule: the hypothesis `phase ≠ idle` derived from `Start ∈ ins`
+  * recorded_messages_are_arrivals_with_edits, one_recorded_message_per_completed_hook: addon modifications, whole history
   * never_connected_relays_nothing: whole-history form of the connection-failure clause
   * round 3: `Input.hookKill` (flow.kill() inside any hook) is part of every schedule; *_any_sockets variants hold when
     write_eof raises OSError (initX); kill_in_message_hook_still_relays, kill_is_plain_completion
@@ -28,6 +29,7 @@
 import MitmVerif.Lemmas.C29
 import MitmVerif.Lemmas.C29Ignore
 import MitmVerif.Lemmas.C29NC
+import MitmVerif.Lemmas.C29Edits
 namespace MitmVerif.Props.C29
 open MitmVerif MitmVerif.C29 MitmVerif.C29.Lemmas
 
@@ -479,6 +481,34 @@ theorem failed_connect_ends_flow_with_error (st : State) (o : ConnectOutcome) (h
   unfold replyInput
   rw [ht]
   exact connect_failure_fires_error st hph hp hf
+
+/-! ### addon modifications over whole histories -/
+
+/-- **Recorded = arrivals with the addon's edits, one for one, in order.**  `accepted false ins` are the data and injected
+    messages the schedule delivers after `Start`, in delivery order; `edits _ ins` is what the addon did at the completion
+    of each message hook, in order (`some b`: it left content `b` in `messages[-1]`; `none`: untouched, also for a kill).
+    For every schedule the messages recorded in `flow.messages` whose hook has completed are exactly the arrivals with
+    those edits applied position by position — and by `relay_exact_per_direction` they are, per direction, exactly what
+    has been sent to the other peer. -/
+theorem recorded_messages_are_arrivals_with_edits (p : Proto) (c : Bool) (ins : List Input) :
+    (run (init p true c) ins).msgs =
+      List.zipWith editMsg (accepted false ins) (edits (init p true c) ins) := by
+  obtain ⟨h, hl, hm, hh⟩ := ed_run (init p true c) ins [] (full_init p true c) (ed_init p true c)
+  rw [List.nil_append] at hl hm
+  obtain ⟨rest, hr⟩ := handled_is_prefix_of_arrivals p c ins
+  rw [hm, ← hr, hh, List.append_assoc, zipWith_prefix _ _ _ _ hl]
+
+/-- each completed message hook has exactly one recorded message -/
+theorem one_recorded_message_per_completed_hook (p : Proto) (c : Bool) (ins : List Input) :
+    (run (init p true c) ins).msgs.length = (edits (init p true c) ins).length := by
+  obtain ⟨h, hl, hm, -⟩ := ed_run (init p true c) ins [] (full_init p true c) (ed_init p true c)
+  rw [List.nil_append] at hl hm
+  rw [hm, List.length_zipWith, hl, Nat.min_self]
+
+example : (run (init .tcp true true) [.start, .hookDone none, .data .client [1], .inject false [2], .hookDone (some [9]),
+    .data .client [3], .hookKill, .hookDone none]).msgs = [⟨true, [9]⟩, ⟨false, [2]⟩, ⟨true, [3]⟩] ∧
+    edits (init .tcp true true) [.start, .hookDone none, .data .client [1], .inject false [2], .hookDone (some [9]),
+    .data .client [3], .hookKill, .hookDone none] = [some [9], none, none] := by decide
 
 /-! ### hypotheses about the state replaced by hypotheses about the schedule -/
 
